@@ -504,6 +504,8 @@ class Interp:
                     return self.inline_property(base, pr, st)
                 if self.repo.find_method(cls, attr) is not None:
                     return BoundMethod(base, attr)
+            if cls in lib.OBJ_METHODS and attr in lib.OBJ_METHODS[cls]:
+                return BoundMethod(base, attr)
             fields = st.heap[base.oid]
             if attr not in fields:
                 fields[attr] = self.materialize_field(base, attr, st)
